@@ -123,13 +123,18 @@ class QPoints:
         self.dim = dim
 
 
-def make_region(it, d, na, nq, ncells, hess=False, uniform=False, shared=True, numeric_D=False):
+def make_region(it, d, na, nq, ncells, hess=False, uniform=False, shared=True, numeric_D=False, numeric_X=False):
     if ncells == 2:
         cells = [list(range(na)), [na - 1] + list(range(na, 2 * na - 1))] if shared else [list(range(na)), list(range(na, 2 * na))]
     else:
         cells = [list(range(na))]
     npts = max(max(c) for c in cells) + 1
     mesh = micro.FakeMesh(cells, npts, d)
+    if numeric_X:
+        # fixed rational, generic (non-affine, no symmetry) point coordinates
+        for p_ in range(npts):
+            for i_ in range(d):
+                mesh.points[p_, i_] = P(Fraction(3 + ((5 * p_ + 7 * i_ + p_ * i_ * 3) % 13), 4 + ((2 * p_ + 3 * i_) % 7)) * (1 if (p_ + 2 * i_) % 4 else -1))
     el = OpaqueElement(na, d, nq, numeric_D=numeric_D)
     qd = QPoints(nq, d)
     cls = it.get("felupe.region._region:Region")
@@ -150,7 +155,7 @@ def run_reload(col, d):
     na, nq, nc = d + 1, 2, 2
     # d = 3: the geometry obligations on the fully symbolic region (no hessian), the second-derivative obligations further down on a region whose
     # element has fixed rational first derivatives (the exact push-forward with a fully symbolic 3x3 inverse Jacobian exceeds the budget)
-    reg, mesh, el, qd = make_region(it, d, na, nq, nc, hess=(d < 3))
+    reg, mesh, el, qd = make_region(it, d, na, nq, nc, hess=False)
     w = method_where(it.get("felupe.region._region:Region"), "reload")
     h = it.getattr(reg, "h")
     dhdr = it.getattr(reg, "dhdr")
@@ -194,13 +199,18 @@ def run_reload(col, d):
                     bad0.append((J, q, c))
     col.add("C06.O1", "Region.dhdX linear reproduction d=%d" % d, "sum_a X[a,I] dhdX[a,J] == delta_IJ on an arbitrarily distorted cell (gradient of a linear field is exact)", not bad1, "%s: %s" % (w, bad1[:5]))
     col.add("C06.O1", "Region.dhdX constant reproduction d=%d" % d, "sum_a dhdX[a,J] == 0 (gradient of a constant field vanishes)", not bad0, "%s: %s" % (w, bad0[:5]))
-    if d == 3:
-        reg, mesh, el, qd = make_region(it, d, na, nq, 1, hess=True, numeric_D=True)
-        nc = 1
-        X = mesh.points
-        drdX = it.getattr(reg, "drdX")
-        dhdX = it.getattr(reg, "dhdX")
+    # the second-derivative obligations need more nodes than a simplex has: with d + 1 nodes the zero-sum second derivatives are reproduced as a
+    # *linear* field and the exact hessian vanishes identically (any push-forward passes).  A region with d + 2 nodes; fixed rational first
+    # derivatives for d >= 2 (the exact push-forward with a fully symbolic inverse Jacobian exceeds the budget)
+    na = d + 2
+    reg, mesh, el, qd = make_region(it, d, na, nq, 1, hess=True, numeric_D=(d >= 2), numeric_X=(d == 3))
+    nc = 1
+    X = mesh.points
+    drdX = it.getattr(reg, "drdX")
+    dhdX = it.getattr(reg, "dhdX")
     d2 = it.getattr(reg, "d2hdXdX")
+    nonzero = any(not is_zero(P(v)) for v in d2.reshape(-1))
+    col.add("C06.O2", "Region.d2hdXdX scenario d=%d" % d, "the scenario is not degenerate: some second derivative w.r.t. the undeformed coordinates is not identically zero", nonzero, nontrivial=False)
     # second derivatives w.r.t. the undeformed coordinates on an arbitrarily distorted (non-affine) cell: h(r(X)),
     #   d2h/dX_K dX_L = (d2h/dr_I dr_J - dh/dX_M d2X_M/dr_I dr_J) dr_I/dX_K dr_J/dX_L   with d2X_M/drdr = sum_b X[b,M] d2h_b/drdr
     # (the second term vanishes on affine cells).  Consequences checked separately: the hessian of a constant and of a linear field vanishes.
